@@ -1,5 +1,6 @@
 import KafVerif.Model.AclGate
 import KafVerif.Model.AclSession
+import KafVerif.Model.AclConn
 import KafVerif.Gen.C24Guards
 import KafVerif.Prelude.Driver
 open KafVerif KafVerif.AclGate KafVerif.GoStr
@@ -17,6 +18,16 @@ def bits (l : List Bool) : String := joinWith "," (l.map fun b => if b then "1" 
 structure St where
   cfg : Acl.Config := { enabled := true, defaultPolicy := [], principals := [] }
   sess : AclSession.State := AclSession.init { enabled := true, defaultPolicy := [], principals := [] }
+  -- connection model (AclConn): the broker's principal-source configuration, the immutable attributes of the connections
+  -- opened under it, and what `Server.handleConnection` attached to each (one slot per `conn` line)
+  cc : AclConn.ConnCfg := { source := [], proxyProtocol := false }
+  attrs : List AclConn.ConnAttrs := []
+  conns : List AclConn.ConnResult := []
+
+def hx (s : List Char) : String := if s = [] then "-" else hexOfRunes s
+
+def parseCid (s : String) : Option (Option (List Char)) :=
+  if s == "~" then some none else (runesOfHex s).map some
 
 def addRule (c : Acl.Config) (isAllow : Bool) (r : Acl.Rule) : Option Acl.Config :=
   match c.principals.reverse with
@@ -37,6 +48,48 @@ def stepLine (u : St) (ws : List String) : St × String :=
     | some n => ({ u with cfg := { u.cfg with principals := u.cfg.principals ++ [{ name := n, allow := [], deny := [] }] } }, "ok")
     | none => (u, "bad-op")
   | ["open"] => ({ u with sess := AclSession.init u.cfg }, "ok")
+  -- connection stream: `srv <source> <proxy 0|1>` = buildConnContextFunc's configuration; `conn <remote> <kind> <src>` = one
+  -- accepted connection (kind: absent | malformed | local | addr = what ReadProxyProtocol finds), answered with what
+  -- AclConn.buildConn attaches; `crq <conn index> <client id | ~> <action> <resource> <name>` = ONE h.allow* call of a request
+  -- on that connection: AclConn.stepC on (handler state, connection slots)
+  | ["srv", src, px] => match runesOfHex src with
+    | some s => ({ u with cc := { source := s, proxyProtocol := px == "1" }, attrs := [], conns := [] }, "ok")
+    | none => (u, "bad-op")
+  | ["conn", remote, kind, src] =>
+    match runesOfHex remote, runesOfHex src with
+    | some r, some sa =>
+      let hdr : Option AclConn.ProxyHdr := match kind with
+        | "absent" => some .absent | "malformed" => some .malformed | "local" => some .isLocal | "addr" => some (.addr sa)
+        | _ => none
+      match hdr with
+      | none => (u, "bad-op")
+      | some h =>
+        let a : AclConn.ConnAttrs := { remoteAddr := r, proxy := h }
+        let c := AclConn.buildConn u.cc a
+        let out := match c with
+          | .refused => "refused"
+          | .noContext => "noctx"
+          | .ctx i => s!"ctx {hx i.principal} {hx i.remoteAddr} {hx i.proxyAddr}"
+        ({ u with attrs := u.attrs ++ [a], conns := u.conns ++ [c] }, out)
+    | _, _ => (u, "bad-op")
+  | ["crq", idx, cid, a, r, n] =>
+    match idx.toNat?, parseCid cid, runesOfHex a, runesOfHex r, runesOfHex n with
+    | some i, some cid, some a, some r, some n =>
+      match u.attrs[i]? with
+      | none => (u, "bad-op")
+      | some att =>
+        let o := AclConn.stepC (u.sess, u.conns) { conn := i, clientId := cid, action := a, resource := r, name := n, dt := 1 }
+        let p := match u.conns[i]? with
+          | some c => (AclConn.connStep c cid).2
+          | none => []
+        let spec := AclConn.principalSpec u.cc att cid
+        let pure := Acl.allows u.cfg { principal := spec, action := a, resource := r, name := n }
+        match o.2 with
+        | none => (u, "refused")
+        | some d =>
+          ({ u with sess := o.1.1, conns := o.1.2 },
+           s!"d={if d then 1 else 0} pure={if pure then 1 else 0} p={hx p} spec={hx spec}")
+    | _, _, _, _, _ => (u, "bad-op")
   | ["rq", p, a, r, n] =>
     match runesOfHex p, runesOfHex a, runesOfHex r, runesOfHex n with
     | some p, some a, some r, some n =>
